@@ -120,6 +120,10 @@ fn parse_hex(src: &[u8]) -> Result<Value, ParseError> {
     }
 }
 
+#[cfg(kani)]
+#[path = "/verif/harness/sam/reader_data_value.rs"]
+mod verif_kani;
+
 #[cfg(test)]
 mod tests {
     use super::*;
